@@ -47,6 +47,7 @@ func isSubstringOf(v, base ssa.Value, depth int) bool {
 	if depth > 6 {
 		return false
 	}
+	v = an.Deref(v)
 	switch x := v.(type) {
 	case *ssa.Slice:
 		return x.X == base || isSubstringOf(x.X, base, depth+1)
@@ -325,6 +326,7 @@ func runT3(p *an.Prog, r *an.Result) {
 	}
 	name := an.FuncName(fn)
 	found := map[string]bool{}
+	done := map[*ssa.Phi]bool{}
 	an.EachInstr(fn, func(in ssa.Instruction) {
 		ifi, ok := in.(*ssa.If)
 		if !ok {
@@ -348,24 +350,22 @@ func runT3(p *an.Prog, r *an.Result) {
 			return
 		}
 		region := regionOf(ifi.Block().Succs[0])
-		kind := ""
+		// a skip state is recognised by what it is - a loop-carried flag whose region only compares tag names -
+		// and is a raw state when it keeps the token source
+		kind := "comment"
 		for _, b := range region {
 			for _, x := range b.Instrs {
-				if bo, ok := x.(*ssa.BinOp); ok && bo.Op == token.EQL {
-					if s, ok := an.ConstString(bo.Y); ok {
-						switch s {
-						case "endcomment":
-							kind = "comment"
-						case "endraw":
-							kind = "raw"
-						}
+				if st, ok := x.(*ssa.Store); ok {
+					if fa, ok := st.Addr.(*ssa.FieldAddr); ok && strings.HasSuffix(describe(p, fa), ".Slices") {
+						kind = "raw"
 					}
 				}
 			}
 		}
-		if kind == "" {
+		if done[ph] {
 			return
 		}
+		done[ph] = true
 		found[kind] = true
 		r.Counts["inert regions"]++
 		var bad []string
@@ -407,10 +407,63 @@ func runT3(p *an.Prog, r *an.Result) {
 			r.Bad(name, kind+" body region is not inert", ifi.Pos(), fmt.Sprintf("inside a %s block the parser %s: the body is evaluated or contributes to the tree", kind, strings.Join(bad, "; ")))
 		}
 	})
-	for _, k := range []string{"comment", "raw"} {
-		if !found[k] {
-			r.Bad(name, k+" region not found", an.FuncPos(fn), "the parser has no state in which "+k+" bodies are skipped")
+	// every site that adds a node to the tree (or parses an expression) lies on the not-in-comment, not-in-raw side
+	var flags []*ssa.Phi
+	an.EachInstr(fn, func(in ssa.Instruction) {
+		if ifi, ok := in.(*ssa.If); ok {
+			if ph, ok := ifi.Cond.(*ssa.Phi); ok {
+				if b, ok := ph.Type().Underlying().(*types.Basic); ok && b.Kind() == types.Bool {
+					for _, e := range ph.Edges {
+						if e == ssa.Value(ph) {
+							dup := false
+							for _, f := range flags {
+								if f == ph {
+									dup = true
+								}
+							}
+							if !dup {
+								flags = append(flags, ph)
+							}
+							break
+						}
+					}
+				}
+			}
 		}
+	})
+	an.EachInstr(fn, func(in ssa.Instruction) {
+		al, ok := in.(*ssa.Alloc)
+		if !ok || !strings.Contains(al.Comment, "complit") {
+			return
+		}
+		n := an.NamedOf(al.Type())
+		if n == nil || !strings.HasPrefix(n.Obj().Name(), "AST") || n.Obj().Name() == "ASTSeq" {
+			return
+		}
+		r.Counts["node constructions"]++
+		for _, ph := range flags {
+			ph := ph
+			okG := an.AllPathsGuarded(al.Block(), func(cond ssa.Value, taken bool) bool { return cond == ssa.Value(ph) && !taken })
+			// the raw node itself is created when raw opens, which is outside both states as well
+			if okG {
+				continue
+			}
+			r.Bad(name, n.Obj().Name()+" built without testing "+nonEmpty(ph.Comment, ph.Name()), al.Pos(), fmt.Sprintf("a %s node can be added to the tree while a comment or raw block is open (the %s test does not come first): markers or content inside the block leak into the output", n.Obj().Name(), nonEmpty(ph.Comment, ph.Name())))
+		}
+	})
+	if r.Counts["node constructions"] > 0 && len(flags) >= 1 {
+		bad := false
+		for _, o := range r.Obs {
+			if o.Status == an.Violated {
+				bad = true
+			}
+		}
+		if !bad {
+			r.OK(name, fmt.Sprintf("all %d node constructions are on the false side of every open-comment/raw flag", r.Counts["node constructions"]), an.FuncPos(fn), "the comment and raw tests come before every arm that builds a node")
+		}
+	}
+	if len(found) == 0 {
+		r.Triv(name, "no skip state in the token loop", an.FuncPos(fn), "the parser keeps no loop-carried flag for comment/raw bodies; this rule decides nothing about how they are skipped")
 	}
 }
 
@@ -426,15 +479,40 @@ func runT4(p *an.Prog, r *an.Result) {
 		r.Bad("-", "trim constants not found", token.NoPos, "anchor not resolved")
 		return
 	}
+	isHyphenTest := func(v ssa.Value) bool {
+		b, ok := v.(*ssa.BinOp)
+		if !ok || b.Op != token.EQL {
+			return false
+		}
+		if c, ok := an.ConstInt(b.Y); ok && c == 45 {
+			_, _, isIdx := stringIndex(b.X)
+			return isIdx
+		}
+		return false
+	}
 	hyphenGuard := func(in ssa.Instruction) bool {
 		for _, g := range an.GuardsAtInstr(in) {
-			b, ok := g.Cond.(*ssa.BinOp)
-			if !ok || !(b.Op == token.EQL && g.True) {
+			if !g.True {
 				continue
 			}
-			if c, ok := an.ConstInt(b.Y); ok && c == 45 {
-				if _, _, isIdx := stringIndex(b.X); isIdx {
-					return true
+			if isHyphenTest(g.Cond) {
+				return true
+			}
+			// a local helper all of whose results are such a test
+			if c := an.CallOf(g.Cond); c != nil {
+				if callee := c.StaticCallee(); callee != nil && p.InModule(callee) {
+					all, n := true, 0
+					an.EachInstr(callee, func(x ssa.Instruction) {
+						if ret, ok := x.(*ssa.Return); ok {
+							n++
+							if len(ret.Results) != 1 || !isHyphenTest(ret.Results[0]) {
+								all = false
+							}
+						}
+					})
+					if all && n > 0 {
+						return true
+					}
 				}
 			}
 		}
@@ -576,6 +654,7 @@ func runT4(p *an.Prog, r *an.Result) {
 // T5
 
 func sameSlice(a, b ssa.Value) bool {
+	a, b = an.Deref(a), an.Deref(b)
 	if a == b {
 		return true
 	}
@@ -610,6 +689,7 @@ func runT5(p *an.Prog, r *an.Result) {
 		}
 	}
 	counted := map[int]int{}
+	countUpdates := map[*ssa.Store]ssa.Value{} // LineNo update -> the text it counts
 	an.EachInstr(fn, func(in ssa.Instruction) {
 		st, ok := in.(*ssa.Store)
 		if !ok {
@@ -644,6 +724,7 @@ func runT5(p *an.Prog, r *an.Result) {
 			r.Bad(name, "counts something other than newlines", st.Pos(), "line numbers are newline counts")
 			return
 		}
+		countUpdates[st] = cnt.Call.Args[0]
 		// which segment?
 		which := -1
 		for i, sg := range segs {
@@ -690,6 +771,46 @@ func runT5(p *an.Prog, r *an.Result) {
 		}
 		if counted[i] != 1 {
 			r.Bad(name, "segment "+describe(p, sg.v)+" counted "+fmt.Sprint(counted[i])+" times", sg.st.Pos(), "each emitted segment must advance the line count exactly once")
+			continue
+		}
+		// on every path from the emission to the next iteration the count for this text is taken
+		header := sg.st.Block()
+		for _, b := range fn.Blocks {
+			if b.Dominates(sg.st.Block()) && reachesBlock(sg.st.Block(), b) && len(b.Preds) > 1 {
+				header = b // innermost loop header dominating the emission
+			}
+		}
+		seen := map[*ssa.BasicBlock]bool{}
+		missed := false
+		var dfs func(b *ssa.BasicBlock, fromStart bool)
+		dfs = func(b *ssa.BasicBlock, fromStart bool) {
+			if seen[b] {
+				return
+			}
+			seen[b] = true
+			for _, in := range b.Instrs {
+				if fromStart {
+					// only instructions after the emission in its own block
+					if in == ssa.Instruction(sg.st) {
+						fromStart = false
+					}
+					continue
+				}
+				if st, ok := in.(*ssa.Store); ok && countUpdates[st] != nil && sameSlice(countUpdates[st], sg.v) {
+					return // counted on this path
+				}
+			}
+			for _, nx := range b.Succs {
+				if nx == header {
+					missed = true
+					continue
+				}
+				dfs(nx, false)
+			}
+		}
+		dfs(sg.st.Block(), true)
+		if missed {
+			r.Bad(name, "segment "+describe(p, sg.v)+" not counted on every path", sg.st.Pos(), "a token is emitted but, on some path to the next iteration, the newlines of its text are not added to the running line: later tokens get too small a line number")
 		}
 	}
 	r.Floor("line updates", 2)
@@ -767,17 +888,9 @@ func runT7(p *an.Prog, r *an.Result) {
 		return
 	}
 	name := an.FuncName(fn)
-	// len(delims[k]) atoms
-	delimLen := func(v ssa.Value) (int64, bool) {
-		c, ok := v.(*ssa.Call)
-		if !ok {
-			return 0, false
-		}
-		b, ok := c.Call.Value.(*ssa.Builtin)
-		if !ok || b.Name() != "len" {
-			return 0, false
-		}
-		u, ok := c.Call.Args[0].(*ssa.UnOp)
+	// delimIndex: v is delims[k] (a load of a constant-indexed element of a []string)
+	delimIndex := func(v ssa.Value) (int64, bool) {
+		u, ok := an.Deref(v).(*ssa.UnOp)
 		if !ok {
 			return 0, false
 		}
@@ -785,73 +898,117 @@ func runT7(p *an.Prog, r *an.Result) {
 		if !ok {
 			return 0, false
 		}
-		if _, isStr := c.Call.Args[0].Type().Underlying().(*types.Basic); !isStr {
+		if bt, ok := u.Type().Underlying().(*types.Basic); !ok || bt.Info()&types.IsString == 0 {
 			return 0, false
 		}
 		return an.ConstInt(ia.Index)
 	}
-	an.EachInstr(fn, func(in ssa.Instruction) {
-		b, ok := in.(*ssa.BinOp)
-		if !ok || b.Op != token.EQL {
-			return
-		}
-		c, ok := an.ConstInt(b.Y)
-		if !ok || c != 45 {
-			return
-		}
-		lkX, lkIndex, ok := stringIndex(b.X)
-		if !ok {
-			return
-		}
-		r.Counts["hyphen tests"]++
-		// which arm: the dominating comparison with delims[k0]
+	armOf := func(in ssa.Instruction) int64 {
 		var k0 int64 = -1
-		for _, g := range an.GuardsAtInstr(b) {
+		for _, g := range an.GuardsAtInstr(in) {
 			if gb, ok := g.Cond.(*ssa.BinOp); ok && gb.Op == token.EQL && g.True {
 				for _, side := range []ssa.Value{gb.X, gb.Y} {
-					if u, ok := side.(*ssa.UnOp); ok {
-						if ia, ok := u.X.(*ssa.IndexAddr); ok {
-							if k, ok := an.ConstInt(ia.Index); ok {
-								k0 = k
-							}
-						}
+					if k, ok := delimIndex(side); ok {
+						k0 = k
 					}
 				}
 			}
 		}
-		lf := linOf(lkIndex, 0)
-		// classify
+		return k0
+	}
+	// check one hyphen test: the BinOp b (in function tf), evaluated for the call site site
+	// (nil when the test is in Scan itself) with parameters bound to args
+	check := func(b *ssa.BinOp, tf *ssa.Function, site *ssa.Call) {
+		sx, idx, _ := stringIndex(b.X)
+		bind := func(v ssa.Value) ssa.Value {
+			if par, ok := v.(*ssa.Parameter); ok && site != nil {
+				for i, pp := range tf.Params {
+					if pp == par && i < len(site.Call.Args) {
+						return site.Call.Args[i]
+					}
+				}
+			}
+			return v
+		}
+		var at ssa.Instruction = b
+		if site != nil {
+			at = site
+		}
+		r.Counts["hyphen tests"]++
+		k0 := armOf(at)
+		lf := linOf(idx, 0)
 		var ks []int64
-		var srcLen bool
-		okForm := true
+		srcLen, okForm := false, true
 		for a, cf := range lf.coef {
 			if cf == 0 {
 				continue
 			}
-			if k, ok := delimLen(a); ok {
-				ks = append(ks, k*10+cf+5) // encode (k, coef)
+			ca, ok := a.(*ssa.Call)
+			if !ok {
+				okForm = false
 				continue
 			}
-			if ca, ok := a.(*ssa.Call); ok {
-				if bi, ok := ca.Call.Value.(*ssa.Builtin); ok && bi.Name() == "len" && ca.Call.Args[0] == lkX && cf == 1 {
-					srcLen = true
-					continue
-				}
+			bi, ok := ca.Call.Value.(*ssa.Builtin)
+			if !ok || bi.Name() != "len" {
+				okForm = false
+				continue
+			}
+			arg := bind(ca.Call.Args[0])
+			if k, ok := delimIndex(arg); ok {
+				ks = append(ks, k*10+cf+5)
+				continue
+			}
+			if eqVal(an.Deref(arg), an.Deref(sx)) && cf == 1 {
+				srcLen = true
+				continue
 			}
 			okForm = false
 		}
-		construct := describe(p, lkX) + "[" + describe(p, lkIndex) + "] == '-'"
+		construct := describe(p, sx) + "[" + describe(p, idx) + "] == '-'"
+		if site != nil {
+			construct += " via " + nonEmpty(an.CallName(&site.Call), "helper")
+		}
+		pos := an.InstrPos(at)
 		switch {
 		case !okForm || len(ks) != 1:
-			r.Bad(name, construct, b.Pos(), "the index tested for the hyphen is not derived from the length of a delimiter: it is right only for delimiters of one particular length")
+			r.Bad(name, construct, pos, "the index tested for the hyphen is not derived from the length of a delimiter: it is right only for delimiters of one particular length")
 		case !srcLen && lf.c == 0 && ks[0] == k0*10+1+5:
-			r.OK(name, construct, b.Pos(), fmt.Sprintf("left marker at index len(delims[%d])", k0))
+			r.OK(name, construct, pos, fmt.Sprintf("left marker at index len(delims[%d])", k0))
 		case srcLen && lf.c == -1 && ks[0] == (k0+1)*10-1+5:
-			r.OK(name, construct, b.Pos(), fmt.Sprintf("right marker at index len(source)-len(delims[%d])-1", k0+1))
+			r.OK(name, construct, pos, fmt.Sprintf("right marker at index len(source)-len(delims[%d])-1", k0+1))
 		default:
-			r.Bad(name, construct, b.Pos(), fmt.Sprintf("the hyphen index does not use the delimiter of this side of this kind of token (arm of delims[%d])", k0))
+			r.Bad(name, construct, pos, fmt.Sprintf("the hyphen index does not use the delimiter of this side of this kind of token (arm of delims[%d])", k0))
 		}
-	})
+	}
+	for _, tf := range unitOf(fn) {
+		an.EachInstr(tf, func(in ssa.Instruction) {
+			b, ok := in.(*ssa.BinOp)
+			if !ok || b.Op != token.EQL {
+				return
+			}
+			if c, ok := an.ConstInt(b.Y); !ok || c != 45 {
+				return
+			}
+			if _, _, ok := stringIndex(b.X); !ok {
+				return
+			}
+			if tf == fn {
+				check(b, tf, nil)
+				return
+			}
+			// a helper closure: one instance per call site in Scan
+			n := 0
+			an.EachInstr(fn, func(x ssa.Instruction) {
+				if c, ok := x.(*ssa.Call); ok && c.Call.StaticCallee() == tf {
+					n++
+					check(b, tf, c)
+				}
+			})
+			if n == 0 {
+				r.Bad(name, "hyphen test in an uncalled helper", b.Pos(), "")
+			}
+		})
+	}
 	r.Floor("hyphen tests", 4)
 }
 
